@@ -56,7 +56,8 @@ class MatchingLinkingProvider(LinkingProvider):
         if not self._dst_lsc.check_loc_stack(mediator, request.destination):
             raise CannotProvide
 
-        for source in itertools.chain(request.sources, reversed(request.context.loc_stacks)):
+        # additional parameters are checked (from right to left) before the fields
+        for source in itertools.chain(reversed(request.context.loc_stacks), request.sources):
             if self._src_lsc.check_loc_stack(mediator, source):
                 return LinkingResult(linking=FieldLinking(source=source, coercer=self._get_coercer()))
         raise CannotProvide
